@@ -227,6 +227,7 @@ def load(repo):
             GLOBAL_CONSTANTS.update({k[6:]: v for k, v in decls.items() if k.startswith('const:')})
             GLOBAL_ENUMS.clear()
             GLOBAL_ENUMS.update(decls.get('enums:', {}))
+            _install_member_aliases(decls)
             return decls
         except Exception:
             pass
@@ -298,11 +299,29 @@ def load(repo):
             tname = (v.type or '').replace('const ', '').replace('struct ', '').replace('class ', '').strip(' &*')
             if _re.match(r'^[A-Za-z_]\w*$', tname) and tname not in decls and _re.search(r'\b(class|struct)\s+%s\b' % _re.escape(tname), text):
                 wanted.add(tname)
+            # ... or as element types of its containers (std::priority_queue<scored_category>)
+            for tname in set(_re.findall(r'[A-Za-z_]\w*', (v.type or '') + ' ' + (v.dtype or ''))):
+                if tname not in decls and tname not in ('std', 'parsing', 'const', 'struct', 'class', 'unsigned', 'float', 'int') \
+                        and _re.search(r'\b(class|struct)\s+%s\s*(\{|:[^:])' % _re.escape(tname), text):
+                    wanted.add(tname)
         for name in sorted(wanted):
             for doc in _split_docs(_run_clang(repo.root, name)):
                 n = _convert(doc, _LineTracker())
                 if n.kind == 'CXXRecordDecl' and n.name == name and any(k.kind in ('FieldDecl', 'CXXMethodDecl') for k in n.kids):
                     decls[name] = n
+        # an ordering declared for such a record outside it: bool operator<(const S &, const S &)
+        free_lt = [name for name in sorted(wanted) if name in decls
+                   and _re.search(r'\boperator\s*<\s*\(\s*(const\s+)?(struct\s+)?%s\b' % _re.escape(name), text)]
+        if free_lt:
+            for doc in _split_docs(_run_clang(repo.root, 'operator<')):
+                if doc.get('kind') != 'FunctionDecl' or doc.get('name') != 'operator<':
+                    continue
+                n = _convert(doc, _LineTracker())
+                ps_ = [k for k in n.kids if k.kind == 'ParmVarDecl']
+                for name in free_lt:
+                    if len(ps_) == 2 and all(_re.search(r'\b%s\b' % _re.escape(name), p_.type or '') for p_ in ps_) \
+                            and any(k.kind == 'CompoundStmt' for k in n.kids):
+                        decls['lt:' + name] = n
     # named constants at file / namespace scope (`static const unsigned NO_CATEGORY = UINT_MAX;`): kept with their
     # initialisers so that a use reads like the value written out
     ctext = _re.sub(r'//[^\n]*', '', text)
@@ -354,7 +373,7 @@ def load(repo):
         if okk:
             enums.update(vals)
     decls['enums:'] = enums
-    for need in ('parse_sentence', 'cell_item', 'chart', 'matrix', 'operator<',
+    for need in ('parse_sentence', 'cell_item', 'chart', 'matrix',
                  'compute_outside_probabilities', 'config', 'combinator_result', 'utils::argmax'):
         if need not in decls:
             raise AnalysisError('%s: declaration %r not found by clang' % (HEADER, need))
@@ -372,7 +391,46 @@ def load(repo):
     GLOBAL_CONSTANTS.update({k[6:]: v for k, v in decls.items() if k.startswith('const:')})
     GLOBAL_ENUMS.clear()
     GLOBAL_ENUMS.update(decls.get('enums:', {}))
+    _install_member_aliases(decls)
     return decls
+
+
+MEMBER_ALIAS = {}       # (record, member) -> the name its reads are spelt with ('first' / 'second' of a pair-like record)
+PAIR_RECORDS = {}       # record name -> (first field, second field)
+
+
+def _install_member_aliases(decls):
+    """A record with exactly two data members, constructed from two values in member order (aggregate, or a constructor
+    whose initialisers copy its parameters into the members in that order) is a pair under another name: its members
+    read as .first / .second, so that the rules written for std::pair<float, category> apply.  (How such a record is
+    ordered is judged separately, from its operator<.)"""
+    MEMBER_ALIAS.clear()
+    PAIR_RECORDS.clear()
+    for name, rec in decls.items():
+        if not isinstance(rec, N) or rec.kind != 'CXXRecordDecl' or ':' in name or name in ('cell_item', 'config', 'combinator_result', 'chart', 'matrix', 'cell'):
+            continue
+        flds = [k for k in rec.kids if k.kind == 'FieldDecl']
+        if len(flds) != 2 or 'float' not in (flds[0].type or '') and 'double' not in (flds[0].type or ''):
+            continue
+        ctors = [k for k in rec.kids if k.kind == 'CXXConstructorDecl' and len([p_ for p_ in k.kids if p_.kind == 'ParmVarDecl']) == 2
+                 and any(c.kind == 'CXXCtorInitializer' for c in k.kids)]
+        user_ctors = [k for k in rec.kids if k.kind == 'CXXConstructorDecl' and any(c.kind == 'CompoundStmt' for c in k.kids)]
+        ok = not user_ctors
+        for c_ in ctors:
+            ps_ = [p_.name for p_ in c_.kids if p_.kind == 'ParmVarDecl']
+            inits = [i_ for i_ in c_.kids if i_.kind == 'CXXCtorInitializer']
+            got = []
+            for i_ in inits:
+                refs = [x.ref for x in i_.walk() if x.kind == 'DeclRefExpr']
+                got.append((i_.name, refs))
+            ok = [g[0] for g in got] == [flds[0].name, flds[1].name] and [g[1] for g in got] == [[ps_[0]], [ps_[1]]]
+            body_ = [k for k in c_.kids if k.kind == 'CompoundStmt']
+            ok = ok and all(not b_.kids for b_ in body_)
+        if not ok:
+            continue
+        MEMBER_ALIAS[(name, flds[0].name)] = 'first'
+        MEMBER_ALIAS[(name, flds[1].name)] = 'second'
+        PAIR_RECORDS[name] = (flds[0].name, flds[1].name)
 
 
 # ---------------------------------------------------------------------------
@@ -497,8 +555,29 @@ class Env(object):
                 return k
         return None
 
+    def _ref_to_pointee(self, decl):
+        """T &x = *p with p a local pointer that is never re-seated: x is the object p points to, whatever is done with it"""
+        t = (decl.type or '').replace('const ', '').strip()
+        if not t.endswith('&') or t.endswith('&&'):
+            return False
+        if decl.parent is not None and decl.parent.parent is not None and decl.parent.parent.kind == 'CXXForRangeStmt':
+            return False
+        init = self.init_of(decl)
+        if init is None:
+            return False
+        i_ = strip(init)
+        if not (i_.kind == 'UnaryOperator' and i_.op == '*' and strip(i_.kids[0]).kind == 'DeclRefExpr'):
+            return False
+        pname = strip(i_.kids[0]).ref
+        pd = [d_ for d_ in self.decl.values() if d_.name == pname and d_.kind == 'VarDecl']
+        return len(pd) == 1 and ((pd[0].type or '').rstrip().endswith('*const') or pd[0].id not in self.mutated)
+
     def inlinable(self, decl):
-        if decl.kind != 'VarDecl' or decl.id in self.mutated:
+        if decl.kind != 'VarDecl':
+            return False
+        if self._ref_to_pointee(decl):
+            return True
+        if decl.id in self.mutated:
             return False
         if decl.parent is not None and decl.parent.parent is not None and decl.parent.parent.kind == 'CXXForRangeStmt' \
                 and not (decl.name or '').startswith('__'):
@@ -512,9 +591,9 @@ class Env(object):
                        'category_id', 'unsigned long', 'size_t', 'std::size_t') or t.endswith('*')
         is_ref = self.alias_inline and t.endswith('&') and not t.endswith('&&') and not (
             decl.parent is not None and decl.parent.parent is not None and decl.parent.parent.kind == 'CXXForRangeStmt')
+        init = self.init_of(decl)
         if not scalar and not is_ref:
             return False
-        init = self.init_of(decl)
         if init is None:
             return False
         t_init = term(init, self, _depth=1)
@@ -602,10 +681,16 @@ def term(n, env=None, _depth=0):
             base = base[1]
         elif base[0] == 'deref':
             base = base[1]
-        return ('mem', base, n.name)
+        name_ = n.name
+        if MEMBER_ALIAS and n.kids:
+            bt = (n.kids[0].dtype or n.kids[0].type or '').replace('const ', '').replace('struct ', '').replace('class ', '').strip(' &*')
+            name_ = MEMBER_ALIAS.get((bt, n.name), n.name)
+        return ('mem', base, name_)
     if k == 'UnaryOperator':
         x = T(n.kids[0])
         if n.op == '&':
+            if x[0] == 'deref':
+                return x[1]
             return ('addr', x)
         if n.op == '*':
             if x[0] == 'addr':
